@@ -11,7 +11,7 @@ from ..quant import absorb_nan_guard, Normaliser, show, top_disjuncts
 from ..roles import roles_of
 from ..terms import call_name, canon, const_num, guard_of, match_clamp_all, norm_stmt, state_key
 from .c08 import make_rename, mask_resolver, ROLES5
-from .common import attr_stores, iter_stores, kw, reaching_assignments, self_attr_of, store_base
+from .common import attr_stores, iter_stores, kw, pos, reaching_assignments, self_attr_of, store_base
 from .points import FilterSummary, PointAnalysis, POINT_SLOTS, HARD_BOUNDS, SEARCH_BOUNDS
 
 EXPLANATION = (
@@ -44,8 +44,62 @@ class ClampPolicy(BasePolicy):
         return super().eval(expr, state, flow)
 
 
+def _vacuous_clamp_edge(prog, fn, test, polarity) -> bool:
+    """the edge (test, polarity) is only taken when every original hard bound is infinite, where the two-sided clamp is
+    the identity (and so is the clamp to the transformed bounds, g being increasing and onto): ``if self._needs_clamp:``
+    with ``self._needs_clamp = bool(np.any(np.isfinite(concatenate([orig_lb, orig_ub]))))`` stored once, after the bounds."""
+    import copy
+
+    from ..quant import Normaliser, top_conjuncts
+    from .common import attr_stores
+
+    if fn.cls is None:
+        return False
+    once = {}
+
+    def stored(a):
+        if a not in once:
+            sts = [x for x in attr_stores(prog, fn.cls, a)]
+            once[a] = sts[0] if len(sts) == 1 and sts[0][2] is not None and sts[0][4] == "assign" else None
+        return once[a]
+
+    used = []
+
+    class A(ast.NodeTransformer):
+        def visit_Attribute(self, node):
+            if isinstance(node.value, ast.Name) and node.value.id == "self" and isinstance(node.ctx, ast.Load) and node.attr not in ("orig_lb", "orig_ub"):
+                st = stored(node.attr)
+                if st is not None and isinstance(st[2], (ast.Call, ast.BoolOp, ast.UnaryOp, ast.Compare)):
+                    used.append(st)
+                    return copy.deepcopy(st[2])
+            return node
+
+    t2 = A().visit(copy.deepcopy(test))
+    if not used:
+        return False
+    f = Normaliser().quant(t2, polarity)
+    conj = set(top_conjuncts(f))
+    need = {("all", ("pred", "isfinite", "self.orig_lb", False)), ("all", ("pred", "isfinite", "self.orig_ub", False))}
+    if not need <= conj:
+        return False
+    # the flag is computed from the stored bounds: both are stored exactly once and before the flag
+    for b in ("orig_lb", "orig_ub"):
+        sb = stored(b)
+        if sb is None or any(sb[0] is not u[0] or pos(sb[3]) > pos(u[3]) for u in used):
+            return False
+    return True
+
+
+class _VacuousAware(ClampPolicy):
+    def refine(self, test, polarity, state, flow):
+        if _vacuous_clamp_edge(flow.prog, flow.fn, test, polarity):
+            for k in list(state):
+                state[k] = state[k] | {"CL"}
+        return state
+
+
 def clamp_summary(ctx, prog, fn: FunctionInfo, lo: str, hi: str, what: str) -> bool:
-    fl = TagFlow(prog, fn, ClampPolicy(lo, hi))
+    fl = TagFlow(prog, fn, _VacuousAware(lo, hi))
     ok = True
     n = 0
     for node in ast.walk(fn.node):
@@ -83,6 +137,10 @@ class BoundProv(BasePolicy):
         return BoundProv([], self.prog, callee, seeds, self.top)
 
     def _is_inf_default(self, e):
+        if isinstance(e, ast.Call) and call_name(e) in ("np.full", "np.full_like") and len(e.args) >= 2 and const_num(e.args[1]) in (float("inf"), float("-inf")):
+            return True  # np.full(shape, +-inf)
+        if isinstance(e, ast.Call) and call_name(e) in ("np.full", "np.full_like") and any(k.arg == "fill_value" and const_num(k.value) in (float("inf"), float("-inf")) for k in e.keywords):
+            return True
         return isinstance(e, ast.BinOp) and isinstance(e.op, ast.Mult) and any(const_num(x) in (float("inf"), float("-inf")) for x in (e.left, e.right))
 
     def eval(self, expr, state, flow):
